@@ -53,6 +53,10 @@ fn main() {
                     props::c02::run(tier)
                 }
                 "C14" => props::c14::run(tier),
+                "C10" => {
+                    world::install_seq_hooks();
+                    props::c10::run(tier)
+                }
                 "C06" => props::c06::run(tier),
                 other => {
                     eprintln!("unknown property {other}");
@@ -95,6 +99,10 @@ fn main() {
                     props::c02::replay(&v)
                 }
                 "C14" => props::c14::replay(&v),
+                "C10" => {
+                    world::install_seq_hooks();
+                    props::c10::replay(&v)
+                }
                 "C06" => props::c06::replay(&v),
                 other => {
                     eprintln!("unknown property {other}");
@@ -112,6 +120,33 @@ fn main() {
         "drv" => {
             world::install_seq_hooks();
             shimrun::driver_main(&args[2..])
+        }
+        "dbg" => {
+            world::install_seq_hooks();
+            let cfg = world::Cfg::from_spec(&args[2]).expect("cfg");
+            let mut w = world::World::new(explore::fresh_dir(), cfg).expect("world");
+            w.track_journals = true;
+            for a in &args[3..] {
+                if a == "image" {
+                    let img = explore::fresh_dir();
+                    crash::copy_tree(&w.dir, &img).expect("copy");
+                    let r = crash::recover_and_observe(&img, &w.cfg);
+                    println!("image: {:?}", match r { crash::Recovered::Ok { content, .. } => crash::show_content(&content), o => format!("{o:?}") });
+                    continue;
+                }
+                let op = world::Op::parse(a).expect("op");
+                let r = w.apply(&op);
+                println!("{op}: {:?} journals={:?} pending={:?} wit={:?}", r.map_err(|v| v.detail), world::journal_files(&w.dir), w.pending(), w.wit);
+            }
+            0
+        }
+        "dbgopen" => {
+            world::install_seq_hooks();
+            dbg_open(&args[2])
+        }
+        "recover-server" => {
+            world::install_seq_hooks();
+            crash::recover_server_main()
         }
         "bench" => {
             world::install_seq_hooks();
@@ -174,4 +209,11 @@ fn bench() {
     let t = Instant::now();
     w.apply(&Op::parse("major x").unwrap()).unwrap();
     println!("major: {:?}", t.elapsed());
+}
+
+#[allow(dead_code)]
+pub fn dbg_open(dir: &str) -> i32 {
+    let r = crash::recover_and_observe(std::path::Path::new(dir), &world::Cfg::default2());
+    println!("{dir}: {:?}", match r { crash::Recovered::Ok { content, .. } => crash::show_content(&content), o => format!("{o:?}") });
+    0
 }
